@@ -152,7 +152,7 @@ def same(exp, got, path="$"):
             return "%s: high-precision number %s decoded as %s" % (path, exp["hpn"], json.dumps(got)[:80])
         txt = bytes.fromhex(got["s"]).decode("utf-8", "replace")
         try:
-            ok = Decimal(txt) == Decimal(exp["hpn"])
+            ok = txt == exp["hpn"] or Decimal(txt) == Decimal(exp["hpn"])     # identical digits need no arithmetic (Decimal refuses huge exponents)
         except Exception:
             ok = False
         return "" if ok else "%s: high-precision number %s decoded as %s" % (path, exp["hpn"], txt)
